@@ -339,6 +339,7 @@ func (pg *poolGen) randomLock(j int) {
 }
 
 func (P) Generate(g *core.Gen) {
+	genTriggers(g)
 	genIndependent(g)
 	genPools(g)
 	genLocks(g)
@@ -467,7 +468,7 @@ func genWeightLimits(g *core.Gen) {
 		if len(s.txs) < 2 {
 			continue
 		}
-		run := int64(356 + s.cbw)
+		run := int64(4*headerOverhead() + s.cbw)
 		var marks []int64
 		seenWit := false
 		for _, i := range predictedOrder(s) {
@@ -482,7 +483,7 @@ func genWeightLimits(g *core.Gen) {
 		m := marks[g.R.Intn(len(marks))]
 		s.maxW = uint32(m + g.R.Range(-2, 2))
 		if g.R.Chance(1, 6) {
-			s.maxW = uint32(g.R.Pick(0, 1, 356, 4000000, 4294967295))
+			s.maxW = uint32(g.R.Pick(0, 1, 4*headerOverhead(), 4000000, 4294967295))
 		}
 		if g.R.Chance(1, 3) {
 			s.minW = uint32(marks[g.R.Intn(len(marks))] + g.R.Range(-1, 1))
@@ -567,7 +568,7 @@ func genPriority(g *core.Gen) {
 		if len(s.txs) == 0 {
 			continue
 		}
-		run := int64(356 + s.cbw)
+		run := int64(4*headerOverhead() + s.cbw)
 		marks := []int64{run}
 		for _, t := range s.txs {
 			run += t.wt
@@ -742,7 +743,7 @@ func genWitnessReserve(g *core.Gen) {
 			pg.s.txs[j].fpk = 10000
 		}
 		s := pg.finish(false)
-		run := int64(356 + s.cbw)
+		run := int64(4*headerOverhead() + s.cbw)
 		for i := 0; i < n; i++ {
 			run += s.txs[i].wt
 		}
@@ -788,7 +789,7 @@ func genFreeArea(g *core.Gen) {
 			continue
 		}
 		order := predictedOrder(s)
-		run := int64(356 + s.cbw)
+		run := int64(4*headerOverhead() + s.cbw)
 		marks := []int64{run}
 		seenWit := false
 		for _, i := range order {
@@ -839,7 +840,7 @@ func genMinHighEdge(g *core.Gen) {
 			pg.add([]inRef{pg.ref(k)}, pg.randKinds(1+g.R.Intn(2)), g.R.Range(0, 40000))
 		}
 		s := pg.finish(true)
-		run := int64(356 + s.cbw)
+		run := int64(4*headerOverhead() + s.cbw)
 		marks := []int64{run}
 		for _, t := range s.txs {
 			run += t.wt
@@ -1005,7 +1006,7 @@ func genManyTxs(g *core.Gen) {
 			continue
 		}
 		if g.R.Bool() { // and the policy maximum right at the finished block
-			run := int64(356 + s.cbw)
+			run := int64(4*headerOverhead() + s.cbw)
 			for _, t := range s.txs {
 				run += t.wt
 			}
@@ -1246,5 +1247,56 @@ func genRetarget(g *core.Gen) {
 		}
 		s.hist = joinStrings(parts, ",")
 		g.Case("retarget", true, s.line())
+	}
+}
+
+// genTriggers rebuilds the triggers of the three fixed findings from the
+// current tree on every run (stored corpus lines would carry values such as the
+// coinbase weight or the reserved header overhead, which are internal to the
+// implementation and may legitimately change).
+func genTriggers(g *core.Gen) {
+	r := core.NewRand(12)
+	// F-C12-a: MTP <= locktime < now with a non-final sequence, CSV active
+	for _, d := range []int64{-2, -1} {
+		pg := newPoolGen(r, 0)
+		pg.s.pb, pg.s.nc, pg.s.uc, pg.s.en = true, false, false, 0
+		k := pg.pick(func(u utxo) bool { return pg.spendable(u) && u.kind == 'T' && !u.cb })
+		j := pg.add([]inRef{pg.ref(k)}, []byte{'T'}, 15000)
+		pg.s.txs[j].lockKind, pg.s.txs[j].lock, pg.s.txs[j].allMax = 'T', pg.s.now+d, false
+		g.Case("trigger-f-c12-a", true, pg.finish(true).line())
+	}
+	{ // ... and exactly at the median time
+		pg := newPoolGen(r, 0)
+		pg.s.pb, pg.s.nc, pg.s.uc, pg.s.en = true, false, false, 0
+		k := pg.pick(func(u utxo) bool { return pg.spendable(u) && u.kind == 'T' && !u.cb })
+		j := pg.add([]inRef{pg.ref(k)}, []byte{'T'}, 15000)
+		pg.s.txs[j].lockKind, pg.s.txs[j].lock, pg.s.txs[j].allMax = 'T', pg.s.mtp, false
+		g.Case("trigger-f-c12-a", true, pg.finish(true).line())
+	}
+	// F-C12-b: the block is full to the policy maximum with non-witness transactions when a witness
+	// transaction with a lower fee rate is considered
+	for _, extra := range []int64{1, 224} {
+		pg := newPoolGen(r, 0)
+		pg.s.pb, pg.s.nc, pg.s.uc, pg.s.en = true, false, false, 0
+		for i := 0; i < 2; i++ {
+			k := pg.pick(func(u utxo) bool { return pg.spendable(u) && u.kind == 'T' && !u.cb })
+			j := pg.add([]inRef{pg.ref(k)}, []byte{'T'}, 80000)
+			pg.s.txs[j].fpk = 500000 + int64(i)
+		}
+		k := pg.pick(func(u utxo) bool { return pg.spendable(u) && u.kind == 'S' })
+		j := pg.add([]inRef{pg.ref(k)}, []byte{'T'}, 3000)
+		pg.s.txs[j].fpk = 20000
+		s := pg.finish(false)
+		s.maxW = uint32(4*headerOverhead() + s.cbw + s.txs[0].wt + s.txs[1].wt + extra)
+		g.Case("trigger-f-c12-b", true, s.line())
+	}
+	// F-C12-c: extra nonce 2^63
+	{
+		pg := newPoolGen(r, 0)
+		pg.s.pb, pg.s.nc, pg.s.uc = true, false, false
+		pg.s.en = 1 << 63
+		k := pg.pick(func(u utxo) bool { return pg.spendable(u) && u.kind == 'T' && !u.cb })
+		pg.add([]inRef{pg.ref(k)}, []byte{'T'}, 9000)
+		g.Case("trigger-f-c12-c", true, pg.finish(true).line())
 	}
 }
